@@ -397,7 +397,7 @@ package slice
 //@ func govcChainBound
 //@   role cmp ord
 //@   requires [C12] lens: len(cl) == len(vs) && forall x int :: {cl[x]} 0 <= x && x < len(cl) ==> cl[x] >= 1
-//@   requires [C12] potential: forall j int, x int :: {cl[j], cl[x]} 0 <= j && j < x && x < len(vs) && (ord(cmp, vs[j], vs[x]) < 0 || (!strict && ord(cmp, vs[j], vs[x]) == 0)) ==> cl[j] <= cl[x]
+//@   requires [C12] potential: forall j int, x int :: {cl[j], cl[x]} 0 <= j && j < x && x < len(vs) && (ord(cmp, vs[j], vs[x]) < 0 || (!strict && ord(cmp, vs[j], vs[x]) == 0)) ==> cl[j] < cl[x]
 //@   requires [C12] chain: (forall k int :: {s[k]} 0 <= k && k < len(s) ==> 0 <= s[k] && s[k] < len(vs)) && (forall a int, b int :: {s[a], s[b]} 0 <= a && b == a + 1 && b < len(s) ==> s[a] < s[b] && (ord(cmp, vs[s[a]], vs[s[b]]) < 0 || (!strict && ord(cmp, vs[s[a]], vs[s[b]]) == 0)))
 //@   ensures  [C12] bound: len(s) > 0 ==> len(s) <= cl[s[len(s) - 1]]
 //@   loop 1: invariant [C12] step: 1 <= k && (len(s) > 0 ==> k <= len(s) && cl[s[k - 1]] >= k)
